@@ -351,10 +351,16 @@ def observe(zk, area):
             for n in zk.get_children(root + '/' + sh):
                 live.append([root + '/' + sh, n])
     snaps = []
+    unreadable = []
     for n in sorted(zk.get_children(hroot)):
-        rows = [list(r) for r in read_snapshot(zk, hroot + '/' + n, table)]
+        try:
+            rows = [list(r) for r in read_snapshot(zk, hroot + '/' + n, table)]
+        except (zlib.error, sqlite3.DatabaseError) as e:
+            # what was uploaded cannot be read back: nothing in it counts as archived
+            rows = []
+            unreadable.append([n, '%s: %s' % (type(e).__name__, str(e)[:80])])
         snaps.append([int(n.rsplit('-', 1)[1]), rows, n])
-    return {'live': live, 'snaps': snaps}
+    return {'live': live, 'snaps': snaps, 'unreadable': unreadable}
 
 
 def call_op(zk, op):
@@ -571,6 +577,9 @@ def oracle(case, obs):
         snaps0 = {n: sorted(map(tuple, rows)) for _s, rows, n in before['snaps']}
         for k, o in enumerate(oo['cuts']):
             live = {tuple(x[:2]) for x in o['live']}
+            for n, why in o.get('unreadable', []):
+                bad('snapshot-unreadable', 'op %d %s, after %d of %d writes: %s cannot be decompressed and opened (%s)'
+                    % (idx, kind, k, oo['writes'], n, why))
             rows_all = {(r[3], r[4]) for _s, rows, _n in o['snaps'] for r in rows}
             names = {n for _s, _r, n in o['snaps']}
             new = [(n, rows) for _s, rows, n in o['snaps'] if n not in snaps0]
